@@ -261,6 +261,49 @@ def oracle_C05(case, obs):
     return bad
 
 
+def oracle_C05_live(case, obs):
+    """the numbering the property prescribes, stated operationally on each bundler's call history:
+    an event / collected range starts at 1 + the number of data points of its stream that are still
+    'live'; a rewind un-does exactly the bundle events taken since the last checkpoint (or since the
+    last never-replayed event of that stream); num_events is the live count."""
+    bad = []
+    for b in obs["bundlers"]:
+        live, perm = {}, {}
+        for o in b["ops"]:
+            name = o["op"]["op"]
+            if name == "rewind":
+                for n in list(live):
+                    live[n] = perm.get(n, 0)
+            datum_done = set()
+            for d in o["docs"]:
+                if d["kind"] == "event":
+                    n = d["stream"]
+                    if d["seq"] != live.get(n, 0) + 1:
+                        bad.append(("C05:seq-not-next-live", f"stream {n}: {name} event has seq_num {d['seq']}, {live.get(n, 0)} data points are live"))
+                    live[n] = live.get(n, 0) + 1
+                    if name != "save":
+                        perm[n] = live[n]
+                elif d["kind"] == "stream_datum" and o["err"] is None:
+                    n = d["stream"]
+                    if n in datum_done:
+                        continue  # the datums of one collect share the range
+                    datum_done.add(n)
+                    a, bb = d["seqRange"]
+                    if a != live.get(n, 0) + 1:
+                        bad.append(("C05:datum-not-next-live", f"stream {n}: datum range [{a},{bb}) but {live.get(n, 0)} data points are live"))
+                    live[n] = live.get(n, 0) + (bb - a)
+                    if bb > a:
+                        perm[n] = live[n]
+                elif d["kind"] == "stop":
+                    for n, N in d["numEvents"]:
+                        if N != live.get(n, 0):
+                            bad.append(("C05:num_events-not-live-count", f"stream {n}: num_events {N}, live data points {live.get(n, 0)}"))
+            if name == "resetCheckpoint" or (name in ("unmonitor", "closeRun") and o["err"] is None):
+                for n in live:
+                    perm[n] = live[n]
+    return bad
+
+
 # ------------------------------------------------------------------------------------------------ C45
 
 
@@ -342,4 +385,8 @@ def oracle_C45(case, obs):
     return bad
 
 
-ORACLES = {"C15": oracle_C15, "C16": oracle_C16, "C05": oracle_C05, "C45": oracle_C45}
+def oracle_C05_all(case, obs):
+    return oracle_C05(case, obs) + oracle_C05_live(case, obs)
+
+
+ORACLES = {"C15": oracle_C15, "C16": oracle_C16, "C05": oracle_C05_all, "C45": oracle_C45}
